@@ -191,7 +191,8 @@ def gen_plan_c07(rng, tier, idx, opts):
     if big:
         cfg = gen_config(rng, 2, [499, 500, 501, 1000, 1001])
     else:
-        cfg = gen_config(rng, 6, [1, 2, 2, 3, 3, 4, 5, 6, 8])
+        # mostly small grids; sometimes 10+ variations (file names are zero padded by the number of variations)
+        cfg = gen_config(rng, 16 if rng.random() < 0.08 else 6, [1, 2, 2, 3, 3, 4, 5, 6, 8])
     if cfg["results_name"] is None:
         cfg["results_name"] = "res"
     stale = rng.random() < 0.12
